@@ -11,10 +11,10 @@ namespace Bit
 open Src
 
 /-- names and types of the variables in scope -/
-def shape (b : BEnv) : List (String × STy) := b.map fun e => (e.1, e.2.1)
+def shape (b : BEnv) : List (String × VTy) := b.map fun e => (e.1, e.2.1)
 
 @[simp] theorem shape_nil : shape [] = [] := rfl
-@[simp] theorem shape_cons (n : String) (t : STy) (bs : List Bool) (b : BEnv) :
+@[simp] theorem shape_cons (n : String) (t : VTy) (bs : List Bool) (b : BEnv) :
     shape ((n, t, bs) :: b) = (n, t) :: shape b := rfl
 
 theorem shape_length (b : BEnv) : (shape b).length = b.length := by simp [shape]
@@ -65,7 +65,7 @@ theorem muxEnv_eq (c : Bool) (a b : BEnv) (h : shape a = shape b) : muxEnv c a b
 theorem shape_muxEnv (c : Bool) (a b : BEnv) (h : shape a = shape b) : shape (muxEnv c a b) = shape a := by
   rw [muxEnv_eq c a b h]; cases c <;> simp [h]
 
-theorem shape_restoreB (outer inner : BEnv) (pre : List (String × STy)) (h : shape inner = pre ++ shape outer) :
+theorem shape_restoreB (outer inner : BEnv) (pre : List (String × VTy)) (h : shape inner = pre ++ shape outer) :
     shape (restoreB outer inner) = shape outer := by
   have hl : inner.length = pre.length + outer.length := by
     rw [← shape_length inner, h, List.length_append, shape_length]
@@ -97,6 +97,32 @@ theorem litMul_some {neg : Bool} {n : Nat} {k : IntTy} {ty : Ty} {other : Option
         exact ⟨by simpa using hneg, hty, y, p2, rfl, rfl, rfl, rfl⟩
       · simp at h
     · simp at h
+
+/-- an unrolled loop keeps the variables it found, if every iteration only adds bindings in front -/
+theorem shape_foldLoop (f : List Bool → BEnv → Option (P × BEnv))
+    (hf : ∀ el env pb envb, f el env = some (pb, envb) → ∃ pre, shape envb = pre ++ shape env) :
+    ∀ (els : List (List Bool)) (p0 : P) (e0 : BEnv) (p2 : P) (env2 : BEnv),
+      foldLoop f els (p0, e0) = some (p2, env2) → shape env2 = shape e0
+  | [], p0, e0, p2, env2, h => by
+    simp only [foldLoop, Option.some.injEq, Prod.mk.injEq] at h; obtain ⟨_, rfl⟩ := h; rfl
+  | el :: rest, p0, e0, p2, env2, h => by
+    simp only [foldLoop] at h
+    split at h
+    · rename_i pb envb hfe
+      obtain ⟨pre, hpre⟩ := hf el e0 pb envb hfe
+      rw [shape_foldLoop f hf rest _ _ _ _ h]
+      exact shape_restoreB _ _ pre hpre
+    · simp at h
+
+theorem shape_drop (b : BEnv) (n : Nat) : shape (b.drop n) = (shape b).drop n := by
+  simp [shape, List.map_drop]
+
+theorem shape_append (a b : BEnv) : shape (a ++ b) = shape a ++ shape b := by simp [shape]
+
+/-- leaving an arm: the pattern's bindings are dropped again -/
+theorem shape_armOut (bb benv1 enve : BEnv) (h : shape enve = shape (armEnv bb benv1)) :
+    shape (armOut bb enve) = shape benv1 := by
+  rw [armOut, shape_drop, h, armEnv, shape_append, ← shape_length bb, List.drop_left]
 
 mutual
 theorem shapeE (call : CallFn) : (e : Expr) → ∀ (benv : BEnv) (t : VTy) (bs : List Bool) (p : P) (benv' : BEnv),
@@ -268,14 +294,72 @@ theorem shapeE (call : CallFn) : (e : Expr) → ∀ (benv : BEnv) (t : VTy) (bs 
   | .tuple es, benv, t, bs, p, benv', h => by
     cases es with
     | nil => simp only [bitExpr, Option.some.injEq, Prod.mk.injEq] at h; obtain ⟨_, _, _, rfl⟩ := h; rfl
-    | cons _ _ => simp [bitExpr] at h
-  | .tupleGet _ _, _, _, _, _, _, h => by simp [bitExpr] at h
-  | .array _, _, _, _, _, _, h => by simp [bitExpr] at h
-  | .repeat_ _ _, _, _, _, _, _, h => by simp [bitExpr] at h
-  | .index _ _, _, _, _, _, _, h => by simp [bitExpr] at h
-  | .range _ _ _, _, _, _, _, _, h => by simp [bitExpr] at h
-  | .struct _ _, _, _, _, _, _, h => by simp [bitExpr] at h
-  | .field _ _, _, _, _, _, _, h => by simp [bitExpr] at h
+    | cons e es =>
+      simp only [bitExpr] at h
+      split at h
+      · rename_i vs p1 env1 hl
+        simp only [Option.some.injEq, Prod.mk.injEq] at h; obtain ⟨_, _, _, rfl⟩ := h
+        exact shapeL call (.cons e es) _ _ _ _ hl
+      · simp at h
+  | .tupleGet a i, benv, t, bs, p, benv', h => by
+    simp only [bitExpr] at h
+    split at h
+    · rename_i ts bs1 p1 env1 ha
+      split at h
+      · simp only [Option.some.injEq, Prod.mk.injEq] at h; obtain ⟨_, _, _, rfl⟩ := h
+        exact shapeE call a _ _ _ _ _ ha
+      · simp at h
+    · simp at h
+  | .array es, benv, t, bs, p, benv', h => by
+    cases es with
+    | nil => simp [bitExpr] at h
+    | cons e es =>
+      simp only [bitExpr] at h
+      split at h
+      · rename_i t0 b0 vs p1 env1 hl
+        split at h
+        · simp only [Option.some.injEq, Prod.mk.injEq] at h; obtain ⟨_, _, _, rfl⟩ := h
+          exact shapeL call (.cons e es) _ _ _ _ hl
+        · simp at h
+      · simp at h
+  | .repeat_ a n, benv, t, bs, p, benv', h => by
+    simp only [bitExpr] at h
+    split at h
+    · rename_i t1 bs1 p1 env1 ha
+      simp only [Option.some.injEq, Prod.mk.injEq] at h; obtain ⟨_, _, _, rfl⟩ := h
+      exact shapeE call a _ _ _ _ _ ha
+    · simp at h
+  | .index a i, benv, t, bs, p, benv', h => by
+    simp only [bitExpr] at h
+    split at h
+    · rename_i te n abits pa env1 ha
+      split at h
+      · rename_i ibits pi env2 hi
+        simp only [Option.some.injEq, Prod.mk.injEq] at h; obtain ⟨_, _, _, rfl⟩ := h
+        rw [shapeE call i _ _ _ _ _ hi, shapeE call a _ _ _ _ _ ha]
+      · simp at h
+    · simp at h
+  | .range lo hi k, benv, t, bs, p, benv', h => by
+    simp only [bitExpr] at h
+    split at h
+    · simp only [Option.some.injEq, Prod.mk.injEq] at h; obtain ⟨_, _, _, rfl⟩ := h; rfl
+    · simp at h
+  | .struct name fs, benv, t, bs, p, benv', h => by
+    simp only [bitExpr] at h
+    split at h
+    · rename_i vs p1 env1 hf
+      simp only [Option.some.injEq, Prod.mk.injEq] at h; obtain ⟨_, _, _, rfl⟩ := h
+      exact shapeF call fs _ _ _ _ hf
+    · simp at h
+  | .field a fname, benv, t, bs, p, benv', h => by
+    simp only [bitExpr] at h
+    split at h
+    · rename_i sn fs bs1 p1 env1 ha
+      split at h
+      · simp only [Option.some.injEq, Prod.mk.injEq] at h; obtain ⟨_, _, _, rfl⟩ := h
+        exact shapeE call a _ _ _ _ _ ha
+      · simp at h
+    · simp at h
   | .enumLit _ _ _ _, _, _, _, _, _, h => by simp [bitExpr] at h
   | .match_ scrut arms, benv, t, bs, p, benv', h => by
     simp only [bitExpr] at h
@@ -285,7 +369,7 @@ theorem shapeE (call : CallFn) : (e : Expr) → ∀ (benv : BEnv) (t : VTy) (bs 
       · split at h
         · rename_i hp t' bs' pa envF ha
           simp only [Option.some.injEq, Prod.mk.injEq] at h; obtain ⟨_, _, _, rfl⟩ := h
-          rw [shapeArms call arms env1 ts sb _ _ ha rfl, shapeE call scrut _ _ _ _ _ hs]
+          rw [shapeArms call arms env1 ts.toTy sb _ _ ha rfl, shapeE call scrut _ _ _ _ _ hs]
         · simp at h
       · simp at h
     · simp at h
@@ -298,7 +382,7 @@ theorem shapeE (call : CallFn) : (e : Expr) → ∀ (benv : BEnv) (t : VTy) (bs 
         exact shapeL call args _ _ _ _ hl
       · simp at h
     · simp at h
-theorem shapeL (call : CallFn) : (es : ExprList) → ∀ (benv : BEnv) (vs : List (STy × List Bool)) (p : P) (benv' : BEnv),
+theorem shapeL (call : CallFn) : (es : ExprList) → ∀ (benv : BEnv) (vs : List (VTy × List Bool)) (p : P) (benv' : BEnv),
     bitList call benv es = some (vs, p, benv') → shape benv' = shape benv
   | .nil, benv, vs, p, benv', h => by
     simp only [bitList, Option.some.injEq, Prod.mk.injEq] at h; obtain ⟨_, _, rfl⟩ := h; rfl
@@ -312,7 +396,21 @@ theorem shapeL (call : CallFn) : (es : ExprList) → ∀ (benv : BEnv) (vs : Lis
         rw [shapeL call rest _ _ _ _ hr, shapeE call e _ _ _ _ _ he]
       · simp at h
     · simp at h
-theorem shapeArms (call : CallFn) : (arms : Arms) → ∀ (benv1 : BEnv) (ts : STy) (sb : List Bool) (st st' : ArmSt),
+theorem shapeF (call : CallFn) : (fs : FieldExprs) → ∀ (benv : BEnv) (vs : List (String × VTy × List Bool)) (p : P) (benv' : BEnv),
+    bitFields call benv fs = some (vs, p, benv') → shape benv' = shape benv
+  | .nil, benv, vs, p, benv', h => by
+    simp only [bitFields, Option.some.injEq, Prod.mk.injEq] at h; obtain ⟨_, _, rfl⟩ := h; rfl
+  | .cons n e rest, benv, vs, p, benv', h => by
+    simp only [bitFields] at h
+    split at h
+    · rename_i t bs p1 env1 he
+      split at h
+      · rename_i vs2 p2 env2 hr
+        simp only [Option.some.injEq, Prod.mk.injEq] at h; obtain ⟨_, _, rfl⟩ := h
+        rw [shapeF call rest _ _ _ _ hr, shapeE call e _ _ _ _ _ he]
+      · simp at h
+    · simp at h
+theorem shapeArms (call : CallFn) : (arms : Arms) → ∀ (benv1 : BEnv) (ts : Ty) (sb : List Bool) (st st' : ArmSt),
     bitArms call benv1 ts sb arms st = some st' → shape st.2.2.2 = shape benv1 → shape st'.2.2.2 = shape benv1
   | .nil, benv1, ts, sb, st, st', h, hs => by
     simp only [bitArms, Option.some.injEq] at h; subst h; exact hs
@@ -325,19 +423,7 @@ theorem shapeArms (call : CallFn) : (arms : Arms) → ∀ (benv1 : BEnv) (ts : S
       · simp at h
       · rename_i te be pe enve he
         have hse := shapeE call e _ _ _ _ _ he
-        -- the arm's variables without the pattern binding
-        have hout : shape (armOut bind enve) = shape benv1 := by
-          cases bind with
-          | none => simpa [armOut, armEnv] using hse
-          | some x =>
-            simp only [armEnv] at hse
-            simp only [armOut]
-            cases enve with
-            | nil => simp [shape] at hse
-            | cons hd tl =>
-              obtain ⟨n', t', b'⟩ := hd
-              simp only [shape_cons, List.cons.injEq] at hse
-              simpa using hse.2
+        have hout : shape (armOut bind enve) = shape benv1 := shape_armOut bind benv1 enve hse
         have hmux : shape (muxEnv (!hasPrev && m) (armOut bind enve) envAcc) = shape benv1 := by
           rw [shape_muxEnv _ _ _ (by rw [hout]; exact hs.symm), hout]
         split at h
@@ -375,6 +461,28 @@ theorem shapeS (call : CallFn) : (s : Stmt) → ∀ (benv : BEnv) (t : VTy) (bs 
         simp only [Option.some.injEq, Prod.mk.injEq] at h; obtain ⟨_, _, _, rfl⟩ := h
         exact ⟨[(x, t1)], by simp [shapeE call e _ _ _ _ _ he]⟩
       · simp at h
+    case tuple ps =>
+      split at h
+      · rename_i t1 bs1 p1 env1 he
+        split at h
+        · split at h
+          · rename_i m bb hp
+            simp only [Option.some.injEq, Prod.mk.injEq] at h; obtain ⟨_, _, _, rfl⟩ := h
+            exact ⟨shape bb, by rw [← shapeE call e _ _ _ _ _ he]; simp [shape]⟩
+          · simp at h
+        · simp at h
+      · simp at h
+    case struct sn fps =>
+      split at h
+      · rename_i t1 bs1 p1 env1 he
+        split at h
+        · split at h
+          · rename_i m bb hp
+            simp only [Option.some.injEq, Prod.mk.injEq] at h; obtain ⟨_, _, _, rfl⟩ := h
+            exact ⟨shape bb, by rw [← shapeE call e _ _ _ _ _ he]; simp [shape]⟩
+          · simp at h
+        · simp at h
+      · simp at h
     all_goals (simp at h)
   | .letMut x e, benv, t, bs, p, benv', h => by
     simp only [bitStmt] at h
@@ -395,12 +503,112 @@ theorem shapeS (call : CallFn) : (s : Stmt) → ∀ (benv : BEnv) (t : VTy) (bs 
           · simp at h
         · simp at h
       · simp at h
-    all_goals (simp at h)
+    case index i rest =>
+      split at h
+      · rename_i t1 bs1 p1 env1 he
+        split at h
+        · rename_i tx xbits hg
+          split at h
+          · rename_i xb' p2 env2 hu
+            simp only [Option.some.injEq, Prod.mk.injEq] at h; obtain ⟨_, _, _, rfl⟩ := h
+            exact ⟨[], by simp [shape_set, shapeU call (.index i rest) _ _ _ _ _ _ _ _ hu, shapeE call e _ _ _ _ _ he]⟩
+          · simp at h
+        · simp at h
+      · simp at h
+    case tup i rest =>
+      split at h
+      · rename_i t1 bs1 p1 env1 he
+        split at h
+        · rename_i tx xbits hg
+          split at h
+          · rename_i xb' p2 env2 hu
+            simp only [Option.some.injEq, Prod.mk.injEq] at h; obtain ⟨_, _, _, rfl⟩ := h
+            exact ⟨[], by simp [shape_set, shapeU call (.tup i rest) _ _ _ _ _ _ _ _ hu, shapeE call e _ _ _ _ _ he]⟩
+          · simp at h
+        · simp at h
+      · simp at h
+    case fld i rest =>
+      split at h
+      · rename_i t1 bs1 p1 env1 he
+        split at h
+        · rename_i tx xbits hg
+          split at h
+          · rename_i xb' p2 env2 hu
+            simp only [Option.some.injEq, Prod.mk.injEq] at h; obtain ⟨_, _, _, rfl⟩ := h
+            exact ⟨[], by simp [shape_set, shapeU call (.fld i rest) _ _ _ _ _ _ _ _ hu, shapeE call e _ _ _ _ _ he]⟩
+          · simp at h
+        · simp at h
+      · simp at h
   | .expr e, benv, t, bs, p, benv', h => by
     simp only [bitStmt] at h
     exact ⟨[], by simp [shapeE call e _ _ _ _ _ h]⟩
-  | .for_ _ _ _, _, _, _, _, _, h => by simp [bitStmt] at h
+  | .for_ pat arr body, benv, t, bs, p, benv', h => by
+    simp only [bitStmt] at h
+    split at h
+    · rename_i te n abits pa env1 ha
+      split at h
+      · split at h
+        · rename_i p2 env2 hl
+          simp only [Option.some.injEq, Prod.mk.injEq] at h; obtain ⟨_, _, _, rfl⟩ := h
+          refine ⟨[], ?_⟩
+          rw [List.nil_append, ← shapeE call arr _ _ _ _ _ ha]
+          refine shape_foldLoop _ ?_ _ _ _ _ _ hl
+          intro el env pb envb hfe
+          split at hfe
+          · rename_i m bb hp
+            split at hfe
+            · rename_i t1 b1 pb1 envb1 hbody
+              simp only [Option.some.injEq, Prod.mk.injEq] at hfe
+              obtain ⟨_, rfl⟩ := hfe
+              obtain ⟨pre, hpre⟩ := shapeSS call body _ _ _ _ _ hbody
+              exact ⟨pre ++ shape bb, by rw [hpre]; simp [shape]⟩
+            · simp at hfe
+          · simp at hfe
+        · simp at h
+      · simp at h
+    · simp at h
   | .forJoin _ _ _ _, _, _, _, _, _, h => by simp [bitStmt] at h
+theorem shapeU (call : CallFn) : (path : Path) → ∀ (benv : BEnv) (t : Ty) (cur : List Bool) (vt : VTy) (vb out : List Bool) (p : P)
+    (benv' : BEnv), bitUpd call benv t cur vt vb path = some (out, p, benv') → shape benv' = shape benv
+  | .nil, benv, t, cur, vt, vb, out, p, benv', h => by
+    simp only [bitUpd] at h
+    split at h
+    · simp only [Option.some.injEq, Prod.mk.injEq] at h; obtain ⟨_, _, rfl⟩ := h; rfl
+    · simp at h
+  | .tup i rest, benv, t, cur, vt, vb, out, p, benv', h => by
+    simp only [bitUpd] at h
+    split at h
+    · split at h
+      · split at h
+        · rename_i hu
+          simp only [Option.some.injEq, Prod.mk.injEq] at h; obtain ⟨_, _, rfl⟩ := h
+          exact shapeU call rest _ _ _ _ _ _ _ _ hu
+        · simp at h
+      · simp at h
+    · simp at h
+  | .index ie rest, benv, t, cur, vt, vb, out, p, benv', h => by
+    simp only [bitUpd] at h
+    split at h
+    · split at h
+      · rename_i ibits pi env1 hi
+        split at h
+        · rename_i hu
+          simp only [Option.some.injEq, Prod.mk.injEq] at h; obtain ⟨_, _, rfl⟩ := h
+          rw [shapeU call rest _ _ _ _ _ _ _ _ hu, shapeE call ie _ _ _ _ _ hi]
+        · simp at h
+      · simp at h
+    · simp at h
+  | .fld f rest, benv, t, cur, vt, vb, out, p, benv', h => by
+    simp only [bitUpd] at h
+    split at h
+    · split at h
+      · split at h
+        · rename_i hu
+          simp only [Option.some.injEq, Prod.mk.injEq] at h; obtain ⟨_, _, rfl⟩ := h
+          exact shapeU call rest _ _ _ _ _ _ _ _ hu
+        · simp at h
+      · simp at h
+    · simp at h
 end
 
 end Bit
